@@ -404,6 +404,8 @@ theorem build_specM {K : Nat} : ∀ (v : View) (st : St), RM K st → v.wf K = t
     · rw [hbn]; exact ⟨hn.zombies, hn.root, hn.rootN, hn.disposed⟩
   | scope sid d kid _ => intro st _ _ hc; simp [View.coreS] at hc
   | forRows en sel lists row _ => intro st _ _ hc; simp [View.coreS] at hc
+  | eb kid _ => intro st _ _ hc; simp [View.coreS] at hc
+  | res c x => intro st _ _ hc; simp [View.coreS] at hc
 
 theorem build_tasksM : ∀ (v : View) (st : St), v.coreS = true → ∀ e, e ∈ (build v st).2.tasks →
     e ∈ st.tasks ∨ e ∈ effsOf (build v st).1 := by
@@ -478,6 +480,8 @@ theorem build_tasksM : ∀ (v : View) (st : St), v.coreS = true → ∀ e, e ∈
     · exact Or.inr (by simp [effsOf, h])
   | scope sid d kid _ => intro st hc; simp [View.coreS] at hc
   | forRows en sel lists row _ => intro st hc; simp [View.coreS] at hc
+  | eb kid _ => intro st hc; simp [View.coreS] at hc
+  | res c x => intro st hc; simp [View.coreS] at hc
   | forKeyed sel lists =>
     intro st _ e h
     rw [build_forKeyed] at h ⊢
